@@ -85,6 +85,20 @@ def kind : Kind where
       | _, _ => none
     | _ => none
   step := fun st l =>
+    if l.op == "traversenested" then
+      -- a second complete Traverse started from the callback of the first (at its second element): both walks
+      -- must visit every present key once, in order; the answer is the outer sequence and the inner count
+      let (_, so) := Spec.C04.step st.scomp st.spec .traverse
+      let inner : Int := if st.spec.length ≥ 2 then st.spec.length else 0
+      let mo := (Model.Bst.step st.comp st.model .traverse).map (·.2)
+      let cres := match l.res with
+        | [items, n] => canonRes st.canon .traverse [items] ++ [n]
+        | r => r
+      { st := st, tags := ["traversenested"], model := some (renderModel mo ++ [.int inner])
+        spec := match failRes l.res with
+          | some c => some s!"{c}:traversenested"
+          | none => if renderOut so ++ [.int inner] == cres then none else some "ordered-map:traverse-reentrant" }
+    else
     match parseOp l with
     | none => { st := st, bad := some s!"bad bst op {l.op}" }
     | some op =>
